@@ -92,6 +92,10 @@ Definition wf_pset_c : pset -> Prop := wf_pset maxvec TG TI TO POSTG POSTI POSTO
 Definition taptrees_stable (p : pset) : Prop :=
   Forall (fun m => Forall (fun e => slot e = idx_taptree -> vfixed TO e) m) (p_outputs p).
 
+Definition no_taptree (p : pset) : bool := forallb (forallb (fun e => negb (Nat.eqb (slot e) idx_taptree))) (p_outputs p).
+Lemma no_taptree_stable p : no_taptree p = true -> taptrees_stable p.
+Proof. unfold no_taptree, taptrees_stable. rewrite forallb_forall, Forall_forall. intros H m Hm. specialize (H m Hm).
+  rewrite forallb_forall in H. apply Forall_forall. intros e He E. specialize (H e He). rewrite E, Nat.eqb_refl in H. discriminate. Qed.
 Lemma stable_fixed p : taptrees_stable p -> pset_fixed TG TI TO Gall Gall Gout p.
 Proof. intros S. split; [|split].
   - apply Forall_forall. intros e _. left. exact I.
@@ -120,6 +124,26 @@ Proof. unfold dec_map. destruct (dec_entries maxvec TI (S (length bs)) bs []) as
 Lemma missing_o bs m rest : dec_map maxvec TO POSTO bs = POk (m, rest) -> missing TO m = false /\ POSTO m = None.
 Proof. unfold dec_map. destruct (dec_entries maxvec TO (S (length bs)) bs []) as [[m' r]|]; [|discriminate]. cbn [pbind fst].
   destruct (POSTO m') eqn:P; [discriminate|]. intros H; inversion H; subst. split; [|exact P]. unfold PsetTables.posto in P. revert P. now destruct (missing TO m). Qed.
+
+Lemma Forall2_refl {A} (R : A -> A -> Prop) : (forall x, R x x) -> forall l, Forall2 R l l.
+Proof. intros H l. induction l; constructor; auto. Qed.
+Lemma pset_equiv_refl p : pset_equiv maxvec Hleaf Hbranch p p.
+Proof. assert (E : forall b e, entry_equiv maxvec Hleaf Hbranch b e e) by (intros; repeat split; auto).
+  repeat split; repeat (apply Forall2_refl; intros); apply E. Qed.
+(* the full conclusion of the fixpoint clause, for PSETs outside the F9 class *)
+Theorem fixpoint_full_c bs p : DESER bs = POk p -> taptrees_stable p ->
+  let c := SER p in exists p', DESER c = POk p' /\ pset_equiv maxvec Hleaf Hbranch p' p /\ SER p' = c.
+Proof. intros H S c. exists p. split; [now apply (fixpoint_c bs)|]. split; [apply pset_equiv_refl|reflexivity]. Qed.
+
+(* a single-leaf tap tree is a fixed point of the canoniser *)
+Lemma taptree_single v s : leafver_ok (b2n v) = true -> N.of_nat (length s) <= maxvec ->
+  canon_taptree maxvec Hleaf Hbranch (x00 :: v :: enc (c_varbytes maxvec) s) = POk (x00 :: v :: enc (c_varbytes maxvec) s).
+Proof. intros LV Ls. unfold canon_taptree, taptree_node.
+  assert (W : wf (c_varbytes maxvec) s = true) by (cbn; apply andb_true_iff; split; lia).
+  pose proof (l_complete (c_varbytes_lawful maxvec) s [] W) as D. rewrite app_nil_r in D.
+  cbn [length taptree_items]. rewrite D, LV. assert (T0 : forall f, taptree_items maxvec (S f) [] = Some []) by reflexivity. try rewrite T0. cbn [taptree_items].
+  change (run Hleaf Hbranch [ILeaf (b2n x00) s v] []) with (@Ok berr br [Some (new_leaf Hleaf s v)]).
+  unfold taptree_ser, new_leaf. cbn [n_leaves flat_map l_branch l_ver l_script length N.of_nat]. now rewrite app_nil_r. Qed.
 
 (* text form *)
 Definition to_string (p : pset) : bytes := b64_enc (SER p).
